@@ -339,7 +339,7 @@ func runC05(w *World) {
 				victimGone = allowed // a granted disconnect really removes the victim
 			}
 			typ, fields := p.Build(op.N[0]*c05Instances+op.N[1], env)
-			before := SnapshotTree(filepath.Join(w.Dir, "sandbox"))
+			before := SnapshotTree(w.Sandbox)
 			byBefore := len(by.AllRecv)
 			id := rq.Request(typ, fields...)
 			rq.Do(rp.TKeepAlive) // fence: the request has been processed
@@ -370,7 +370,7 @@ func runC05(w *World) {
 				w.Violate("c05-not-refused-"+p.Name, "step %d: requester lacks %v (access %x) but %s was answered with %d replies, error=%v", step, p.Needs, acc, p.Name, len(reps), denied)
 				return
 			}
-			after := SnapshotTree(filepath.Join(w.Dir, "sandbox"))
+			after := SnapshotTree(w.Sandbox)
 			if d := DiffTrees(before, after); len(d) > 0 {
 				w.Violate("c05-effect-without-privilege-"+p.Name, "step %d: %s was refused but state changed: %v", step, p.Name, d[:min(len(d), 5)])
 				return
